@@ -260,12 +260,28 @@ func (v *Vue) resolveOperand(ctx VueContext, expr string) (any, bool) {
 	if val, ok := ctx.stack.Resolve(expr); ok {
 		return val, true
 	}
-	if strings.ContainsAny(expr, "[(") {
+	if strings.ContainsAny(expr, "[(") || isLiteralExpr(expr) {
 		if val, err := v.exprEval.Eval(expr, v.exprEnv(ctx)); err == nil && val != nil {
 			return val, true
 		}
 	}
 	return nil, false
+}
+
+// isLiteralExpr reports whether a whole expression is a literal - a number, true / false or a
+// quoted string - which has a value although it names no variable.
+func isLiteralExpr(expr string) bool {
+	if expr == "true" || expr == "false" {
+		return true
+	}
+	if n := len(expr); n >= 2 && (expr[0] == '\'' || expr[0] == '"') && expr[n-1] == expr[0] {
+		return !strings.Contains(expr[1:n-1], expr[:1])
+	}
+	if expr == "" || !strings.ContainsRune("0123456789-.", rune(expr[0])) {
+		return false
+	}
+	_, err := strconv.ParseFloat(expr, 64)
+	return err == nil
 }
 
 // callNeedsEvaluator reports whether a call that is a whole expression has to be evaluated
